@@ -56,6 +56,7 @@ var contexts = []context{
 	{"return", "var gCTX TT\nfunc retCTX() TT { return gCTX }\nfunc retpCTX(p *TT) TT { return *p }\nfunc retfCTX(w *struct{ f TT }) TT { return w.f }", `gCTX = MK(); b := retCTX(); MUT(&gCTX); out("src", SHOW(b)); MUT2(&b); out("dst", SHOW(gCTX)); a := MK(); c := retpCTX(&a); MUT(&a); out("deref", SHOW(c)); w := &struct{ f TT }{MK()}; d := retfCTX(w); MUT(&w.f); out("field", SHOW(d))`},
 	{"retdirect", "var hCTX TT\nfunc rdCTX() TT { return hCTX }\nfunc takeCTX(p TT) string { MUT(&p); return SHOW(hCTX) }\nfunc (v TT) selfCTX() string { MUT(&v); return SHOW(hCTX) }", `{ hCTX = MK(); out("arg", takeCTX(rdCTX())) }; { hCTX = MK(); out("recv", rdCTX().selfCTX()) }; { hCTX = MK(); m := map[string]TT{}; m["k"] = rdCTX(); MUT(&hCTX); out("mapstore", SHOW(m["k"])) }; { hCTX = MK(); sl := []TT{rdCTX()}; MUT(&hCTX); out("lit", SHOW(sl[0])) }; { hCTX = MK(); var i interface{} = rdCTX(); MUT(&hCTX); out("box", SHOW(i.(TT))) }; { hCTX = MK(); c := make(chan TT, 1); select { case c <- rdCTX(): }; MUT(&hCTX); out("selsend", SHOW(<-c)) }`},
 	{"namedres", "var nCTX TT\nfunc nrCTX() (r TT) { r = nCTX; return }\nfunc nr2CTX() (r TT) { defer func() { MUT(&r) }(); return nCTX }", `nCTX = MK(); b := nrCTX(); MUT(&nCTX); out("src", SHOW(b)); nCTX = MK(); c := nr2CTX(); out("defer", SHOW(c)+"/"+SHOW(nCTX))`},
+	{"retdefer", "func rdfCTX() TT { a := MK(); defer func() { MUT(&a) }(); return a }\nfunc rdf2CTX() (TT, TT) { a, b := MK(), MK(); defer func() { MUT(&a); MUT2(&b) }(); return a, b }\nfunc rdf3CTX(p TT) TT { defer func() { MUT(&p) }(); return p }\nfunc rdf4CTX() TT { a := MK(); defer func() { recover(); MUT2(&a) }(); func() { defer func() { MUT(&a) }() }(); return a }\nfunc rdf5CTX() TT { a := MK(); c := make(chan bool); go func() { <-c; MUT(&a); c <- true }(); defer func() { c <- true; <-c }(); return a }", `out("local", SHOW(rdfCTX())); x, y := rdf2CTX(); out("tuple", SHOW(x)+"/"+SHOW(y)); out("param", SHOW(rdf3CTX(MK()))); out("nested", SHOW(rdf4CTX())); out("goroutine", SHOW(rdf5CTX()))`},
 	{"rangeslice", "", `sl := []TT{MK(), MK()}; for i, v := range sl { MUT(&v); out("dst"+itoa(int64(i)), SHOW(sl[i])); MUT2(&sl[i]); out("src"+itoa(int64(i)), SHOW(v)) }`},
 	{"rangearray", "", `{ arr := [2]TT{MK(), MK()}; for i, v := range arr { if i == 0 { MUT(&arr[1]) }; out("later"+itoa(int64(i)), SHOW(v)) } }; { arr := [2]TT{MK(), MK()}; for i, v := range arr { MUT(&v); out("dst"+itoa(int64(i)), SHOW(arr[i])) } }; { arr2 := [2]TT{MK(), MK()}; pa := &arr2; for i, v := range pa { if i == 0 { MUT(&pa[1]) }; out("ptr"+itoa(int64(i)), SHOW(v)) } }`},
 	{"rangemap", "", `m := map[Int]TT{1: MK()}; for k, v := range m { MUT(&v); out("dst", SHOW(m[k])); w := m[k]; MUT2(&w); m[k] = w; out("src", SHOW(v)) }`},
